@@ -235,9 +235,11 @@ static void on_query(struct sim *s, const uint8_t *p, uint32_t len)
 	if (VNOW == s->t_last_query) {
 		if (++s->queries_same_second > 3000 && !s->spin_reported) {
 			s->spin_reported = true;
+			VO.muted = false;
 			viol("C08", "C08:spin:query-storm", "%ld queries sent without virtual time advancing (socket state %d)", s->queries_same_second, s->sock->state);
 			viol("C04", "C04:spin:query-storm", "client repeats exchanges without letting time advance");
 			s->finished = true;
+			vo_abort_case();
 		}
 	} else {
 		s->t_last_query = VNOW;
